@@ -141,6 +141,55 @@ def native_replay(path, repo_root, script=None):
         return dict(error=repr(e), reproduced=False)
 
 
+def _start_native_side_check(spec, tier, seed, repo_root):
+    """spec['native_falsifier'] = script: started next to the symbolic driver, collected before the verdict"""
+    script = spec.get("native_falsifier")
+    if not script or not spec.get("native_falsifier_tiers", {}).get(tier, True):
+        return None
+    env = dict(os.environ)
+    env.update(PYTHONPATH=repo_root, PYTHONDONTWRITEBYTECODE="1", VERIF_SEED=str(seed), OMP_NUM_THREADS="1")
+    os.makedirs(os.path.join(VERIF, "replays"), exist_ok=True)
+    path = os.path.join(VERIF, "replays", f"{spec['id']}__native-side-check.json")
+    with open(path, "w") as f:
+        json.dump(dict(property=spec["id"], kind="side-check", obligation=f"{spec['id']}/native-side-check",
+                       repo_root=repo_root, seed=int(seed), script=script), f, indent=1)
+    p = subprocess.Popen([NATIVE_PY, os.path.join(VERIF, script), path, repo_root], stdout=subprocess.PIPE,
+                         stderr=subprocess.PIPE, text=True, cwd=VERIF, env=env)
+    return dict(proc=p, path=path, script=script, t0=time.time())
+
+
+def _finish_native_side_check(side, prop, repo_root):
+    if side is None:
+        return None
+    try:
+        out, err = side["proc"].communicate(timeout=1500)
+        rc = side["proc"].returncode
+    except subprocess.TimeoutExpired:
+        side["proc"].kill()
+        out, err, rc = "", "timed out", None
+    reproduced = rc == 1 and "REPRODUCED" in out and "NOT-REPRODUCED" not in out
+    rec = dict(kind="bounded-native", script=side["script"], exit=rc, reproduced=reproduced,
+               wall_s=round(time.time() - side["t0"], 2), stdout=out,
+               note="bounded: the sampled inputs of the property's native falsifier; never counted as proved")
+    if reproduced:
+        with open(side["path"]) as f:
+            j = json.load(f)
+        j.update(native=dict(cmd=f"{NATIVE_PY} {side['script']} {side['path']} {repo_root}", exit=rc,
+                             stdout=out[-4000:], reproduced=True), reproduced_natively=True)
+        with open(side["path"], "w") as f:
+            json.dump(j, f, indent=1)
+        rec["replay"] = side["path"]
+    else:
+        if rc != 0:
+            # did not finish / harness error: recorded, never a verdict
+            print(f"NOTE: native side check of {prop} did not complete (exit {rc}): {(err or out)[-200:]!r}")
+        try:
+            os.remove(side["path"])
+        except OSError:
+            pass
+    return rec
+
+
 def shim_selftest(seed):
     """differential op-by-op test of the shim against real torch; -> (ok, summary dict)"""
     script = os.path.join(SHIM, "selftest", "difftest.py")
@@ -162,6 +211,7 @@ def run(spec, tier, seed, repo_root):
     t0 = time.time()
     prop = spec["id"]
     repo_root = os.path.realpath(repo_root)
+    side = _start_native_side_check(spec, tier, seed, repo_root)
     res = run_driver(prop, tier, repo_root, seed, timeout=2400)
     results = res.get("results", [])
     by = {}
@@ -246,6 +296,13 @@ def run(spec, tier, seed, repo_root):
                                                               detail=nat.get("stdout", "")[-600:])])
             violations.append((r, path, True))
 
+    # ---- native side check (bounded, sampled): the operations the shim cannot follow, on real torch
+    side_rec = _finish_native_side_check(side, prop, repo_root)
+    if side_rec and side_rec.get("reproduced"):
+        r = dict(case=dict(kind="native-falsifier"), status="mismatch",
+                 mismatches=[dict(check="native falsifier (side check)", detail=side_rec["stdout"][-800:])])
+        violations.append((r, side_rec["replay"], True))
+
     # ---- controls / shim self-test
     controls = spec["controls"] if tier == "thorough" else [c for c in spec["controls"] if c["name"] in spec["quick_controls"]]
     ctrl = []
@@ -295,6 +352,8 @@ def run(spec, tier, seed, repo_root):
         driver_wall_s=res.get("wall_s"),
         unsupported_ops=sorted({r.get("op", "") for r in unsupported}),
         undecided_cases_probed_natively=probes,
+        native_side_check=({k: v for k, v in side_rec.items() if k != "stdout"} | {"output_tail": side_rec["stdout"][-600:]}
+                           if side_rec else None),
     )
     ev = dict(property_id=prop, tier=tier, seed=int(seed), level="other", coverage=cov,
               assumptions=spec["assumptions"], wall_s=round(time.time() - t0, 2), violations=len(violations))
